@@ -27,6 +27,14 @@ PROPS = {
             ("Snowflake.Tie.Encap", "Snowflake.Tie.Encap.paddingSwitch_tie"),
             ("Snowflake.Tie.Encap", "Snowflake.Tie.Encap.paddingBufferLen_tie"),
         ],
+        "level_text": "All clauses are kernel-checked theorems over the model of encapsulation.go: round trip for every item sequence, "
+                      "independence from every contract-respecting reader fragmentation (unbounded scripts), padding exact and invisible, "
+                      "size budget never exceeded. The encoder side of the model is regenerated from the Go source and proved equal to it; "
+                      "the decoder loop is tied by differential runs of the real ReadData against the compiled model.",
+        "level_note": "Trusted: Lean kernel; the translator for dataPrefixForLength / the WritePadding switch (int emitted over Nat); "
+                      "the hand-written model of ReadData's loop, io.ReadFull and io.CopyN (validated differentially, not verified); "
+                      "allocation bound = announced chunk length is read off the model, not measured.",
+        "design_ref": "DESIGN.md §5.9",
         "harness": {"pkg": "common/encapsulation", "test": "TestVerifC09"},
         "overlay": {"common/encapsulation/zz_verif_c09_test.go": "c09_encapsulation_test.go"},
         "rule": "cases = prefix lengths, padding sizes, size budgets, byte streams (valid item sequences on every prefix boundary, "
@@ -37,3 +45,6 @@ PROPS = {
         "assumptions": ["ReadData's reader obeys the io.Reader contract and eventually stops returning (0, nil)"],
     },
 }
+
+NOT_APPLICABLE = {p: "check not built yet in this round (planned, see DESIGN.md §9); not claimed" for p in
+                  ["C01", "C02", "C03", "C04", "C05", "C06", "C07", "C08", "C10", "C11", "C12", "C13", "C14", "C15", "C16", "C17", "C18", "C19", "C20"]}
